@@ -588,7 +588,21 @@ class Parser:
                 continue
             if self.at("["):
                 self.i += 1
-                ix = self.expr()
+                lo = hi = None
+                if self.at(".."):
+                    self.i += 1
+                    if not self.at("]"):
+                        hi = self.binary(0, False)
+                    ix = ("range", None, hi)
+                else:
+                    lo = self.binary(0, False)
+                    if self.at(".."):
+                        self.i += 1
+                        if not self.at("]"):
+                            hi = self.binary(0, False)
+                        ix = ("range", lo, hi)
+                    else:
+                        ix = lo
                 self.expect("]")
                 e = ("index", e, ix)
                 continue
@@ -841,8 +855,13 @@ class Parser:
             elems = []
             while self.i < close_i:
                 elems.append(self.expr())
-                if self.at(";"):
-                    self.fail("vec![x; n]")
+                if self.at(";") and len(elems) == 1:
+                    self.i += 1
+                    n = self.expr()
+                    if self.i != close_i:
+                        self.fail("vec! with unexpected contents")
+                    self.i += 1
+                    return ("vec_repeat", elems[0], n)
                 if not self.eat(","):
                     break
             if self.i != close_i:
@@ -1424,7 +1443,7 @@ class FnTr:
     ATOMIC_RMW = {"fetch_or": "Rust.bor {0} {1}", "fetch_and": "Rust.band {0} {1}", "fetch_xor": "Rust.bxor {0} {1}",
                   "fetch_add": "Rust.wAdd {w} {0} {1}", "fetch_sub": "Rust.wSub {w} {0} {1}", "store": "{1}", "swap": "{1}"}
     ATOMIC_TY = {"AtomicUsize": "usize", "AtomicU64": "u64", "AtomicU32": "u32", "AtomicU8": "u8", "AtomicU16": "u16"}
-    MUTATING = {"fetch_or", "fetch_and", "fetch_xor", "fetch_add", "fetch_sub", "store", "swap", "retain", "push", "insert", "remove", "clear", "truncate", "sort", "sort_by", "sort_by_key", "dedup",
+    MUTATING = {"copy_from_slice", "split_off", "fetch_or", "fetch_and", "fetch_xor", "fetch_add", "fetch_sub", "store", "swap", "retain", "push", "insert", "remove", "clear", "truncate", "sort", "sort_by", "sort_by_key", "dedup",
                 "extend", "pop", "push_back", "pop_front", "swap_remove", "drain", "reverse", "take", "replace", "get_or_insert"}
 
     def is_sibling_mut(self, e):
@@ -1628,7 +1647,21 @@ class FnTr:
                 rv = self.ex(recv, env)
                 av = self.ex(args[0], env)
                 return self.assign_to(args[0], Val(ma.format(self.par(rv.lean), self.par(av.lean)), av.ty), env, k)
-            if name in self.ATOMIC_RMW:
+            if name == "copy_from_slice" and recv[0] == "index" and recv[2][0] == "range":
+                base = recv[1]
+                bv = self.ex(base, env)
+                lo = self.ex(recv[2][1], env, T("usize")).lean if recv[2][1] is not None else "0"
+                src = self.ex(args[0], env)
+                self.note("`a[lo..hi].copy_from_slice(src)` overwrites `src.len()` elements from `lo` (Rust panics unless `hi - lo == src.len()` and in bounds)")
+                return self.assign_to(base, Val(f"Rust.copyInto {self.par(bv.lean)} {self.par(lo)} {self.par(src.lean)}", bv.ty), env, k)
+            if name == "split_off":
+                rv = self.ex(recv, env)
+                n = self.ex(args[0], env, T("usize"))
+                tail = self.fresh()
+                inner = self.assign_to(recv, Val(f"List.take {self.par(n.lean)} {self.par(rv.lean)}", rv.ty), env,
+                                       lambda env2, _v: k(env2, Val(tail, rv.ty)))
+                return f"let {tail}{self.asc(rv.ty)} := List.drop {self.par(n.lean)} {self.par(rv.lean)};\n{inner}"
+            if name in self.ATOMIC_RMW and ty_name(self.ex(recv, env).ty) in self.ATOMIC_TY:
                 rv = self.ex(recv, env)
                 at = self.ATOMIC_TY.get(ty_name(rv.ty))
                 if at is None:
@@ -2011,6 +2044,8 @@ class FnTr:
         lt = self.a.lean_ty(T(name))
         if e[3] is not None:
             b = self.ex(e[3], env)
+            if not parts:
+                return Val(b.lean, T(name))
             return Val(f"{{ {b.lean} with {', '.join(parts)} }}", T(name))
         missing = [f for f in kept if f not in [x[0] for x in e[2]]]
         if missing:
@@ -2091,6 +2126,9 @@ class FnTr:
         if ty_name(ty) == "bool" and op in ("&", "|", "^"):
             l = {"&": "&&", "|": "||", "^": "!="}[op]
             return Val(f"({a.lean} {l} {b.lean})", T("bool"))
+        so = self.a.spec.get("operators", {}).get((op, ty_name(a.ty)))
+        if so is not None:
+            return Val(so[0].format(self.par(a.lean), self.par(b.lean)), self.tyspec(so[1]))
         if op in ("/", "%"):
             self.width(ty, f"`{op}`")
             self.note(f"`{op}`: Lean `x {op} 0 = {'0' if op == '/' else 'x'}`, Rust panics on a zero divisor")
@@ -2155,7 +2193,22 @@ class FnTr:
         return Val(self.closure(e, [], env), None)
 
     def ex_index(self, e, env, want):
-        self.fail("index expression `a[i]`")
+        if e[2][0] != "range":
+            self.fail("index expression `a[i]`")
+        a = self.ex(e[1], env)
+        if ty_name(a.ty) not in ("Vec", "Slice", "Array"):
+            self.fail("range index on a value that is not a vector/slice")
+        lo = self.ex(e[2][1], env, T("usize")).lean if e[2][1] is not None else "0"
+        if e[2][2] is None:
+            return Val(f"List.drop {self.par(lo)} {self.par(a.lean)}", a.ty)
+        hi = self.ex(e[2][2], env, T("usize")).lean
+        self.note("`a[lo..hi]` is `(a.drop lo).take (hi - lo)` (Rust panics when the range is out of bounds)")
+        return Val(f"Rust.slice {self.par(a.lean)} {self.par(lo)} {self.par(hi)}", a.ty)
+
+    def ex_vec_repeat(self, e, env, want):
+        v = self.ex(e[1], env)
+        n = self.ex(e[2], env, T("usize"))
+        return Val(f"List.replicate {self.par(n.lean)} {self.par(v.lean)}", T("Vec", v.ty))
 
     def ex_call(self, e, env, want):
         callee = e[1]
@@ -2251,10 +2304,16 @@ class FnTr:
         r = self.ex(recv, env)
         rn = ty_name(r.ty)
         R = self.par(r.lean)
+        fi = self.a.fninfo.get((rn, name)) if rn else None
+        if fi is not None and fi["params"] and fi["params"][0][0] == "self" and fi["params"][0][1] != "mut":
+            if fi.get("failed"):
+                self.fail(f"calls `{rn}::{name}`, whose translation failed")
+            argv = [self.ex(x, env).lean for x in args]
+            return Val(self.app(self.sib_name(fi), [r.lean] + argv), self.resolve_ty2(fi["ret"], fi["self_ty"]))
         if rn in self.ATOMIC_TY and name == "load":
             return Val(r.lean, T(self.ATOMIC_TY[rn]))
         for sm in self.a.spec.get("methods", []):
-            if sm["name"] == name and (sm.get("on") is None or sm["on"] == rn) and len(args) == max([int(x) for x in re.findall(r"\{(\d+)\}", sm["lean"])] + [0]):
+            if sm["name"] == name and (sm.get("on") is None or sm["on"] == rn) and len(args) == sm.get("arity", max([int(x) for x in re.findall(r"\{(\d+)\}", sm["lean"])] + [0])):
                 argv = [self.par(self.ex(x, env).lean) for x in args]
                 return Val(sm["lean"].format(R, *argv), self.tyspec(sm.get("ty")) if sm.get("ty") != "same" else r.ty)
 
